@@ -6,6 +6,8 @@
                                                   -> walk <hash>,<hdr>,<height>,<blen>,<txs> …   | bad
     add <hash> <height> <txcount> <trusted01> <raw> -> ok | bad
     get <hash>                                    -> data <trusted01> <bytes> | err <kind> <trusted01> | bad
+    getnc <hash>                                  -> as `get`: BlockGetInternal(hash, do_not_cache = true), the one-pass read
+                                                     (Model.BlockDBNC.blockGetNC); the claim demanded of it is the one of `get`
     len <hash> <decode01>                         -> len <n> | lenerr | bad
     trusted <hash> | invalid <hash> | idle | close -> ok | panic | bad
     files                                         -> files idx:<len>:<fnv> dat<i>:<len>:<fnv> … old<i>:<len>:<fnv> …  (sorted by i)
@@ -28,6 +30,8 @@
     sdec <bytes>                                  -> ok <bytes> | err
 -/
 import GocoinV.Model.BlockDB
+import GocoinV.Model.BlockDBNC
+import GocoinV.Spec.BlockStoreMapNC
 import GocoinV.Spec.BlockStoreMap
 import GocoinV.Model.Snappy
 import GocoinV.Base.Sha256
@@ -164,6 +168,14 @@ def stepLine (st : OSt) (toks : List String) : OSt × String :=
       | false, some f, none =>
         ({ st with s := { st.s with fs := { st.s.fs with dats := AL.del st.s.fs.dats i, olds := AL.set st.s.fs.olds i f } } }, "ok")
       | _, _, _ => (st, "bad")
+    | none => (st, "bad-op")
+  | ["getnc", h] =>
+    match Hex.decode h with
+    | some h =>
+      -- the specification treats the one-pass read as a read: same claim, the durable map is unchanged
+      let c := claimRX st.s st.sp (.getNC h)
+      let (s', o) := stepX env st.s (.getNC h)
+      ({ s := s', sp := specStepX st.s st.sp (.getNC h), lastOK := holdsB c o, lastKind := claimKind c }, outStr o)
     | none => (st, "bad-op")
   | ["lost"] => (st, " ".intercalate ("lost" :: ((st.s.fs.lost.eraseDups.toArray.qsort (· < ·)).toList.map toString)))
   | _ =>
